@@ -22,7 +22,7 @@ META = {
             "setting, initial state, outcome string)",
     "bounds": {
         "quick": "layout (e,p,c)=(1,1,1): all programs L<=2 over the full 32-letter alphabet, L=3 over the 20-letter core; "
-                 "(2,1,1),(1,2,2): L<=2 core; initial states S_1,S_2 with L<=1; time-reversed-solver circuits "
+                 "(2,1,1),(1,2,2): L<=2 core; all words of <=4 one-qubit gates {H,P,X,Z} followed by each measuring operation; initial states S_1,S_2 with L<=1; time-reversed-solver circuits "
                  "of all graphs n<=3 + 1 inserted letter",
         "thorough": "(1,1,1): L<=3 full alphabet; 3-qubit layouts L<=2 full, L<=3 core; initial states L<=2; "
                     "solver circuits n<=4 + 1 insertion",
@@ -323,6 +323,11 @@ def shards(tier):
             out.append({"kind": "prog", "layout": layout, "L": 1, "full": full, "first": None})
         else:
             out.append({"kind": "prog", "layout": layout, "L": L, "full": full, "first": None})
+    # one-qubit words followed by one measuring operation: long enough for floating-point residues (p ~ 1e-34) to appear in the
+    # density-matrix back end, where forced outcomes must still be decided by 0 / non-0
+    for t in ("e", "p"):
+        for first in ("H", "P", "X", "Z"):
+            out.append({"kind": "words", "qubit": t, "first": first, "L": 4 if tier == "quick" else 5})
     for layout, L in init_plan:
         ninit = {1: 6, 2: 60}[layout[0] + layout[1]]
         for i in range(ninit):
@@ -363,6 +368,21 @@ def run_shard(shard, tier, acc):
                         case = {"layout": list(layout), "program": list(t), "backend": backend, "setting": setting,
                                 "init": shard["init"]}
                         check_case(case, acc)
+    elif kind == "words":
+        layout = (1, 1, 1)
+        t = shard["qubit"]
+        o = "p" if t == "e" else "e"
+        tails = [["MZ", t, 0, 0], ["CCNOT", t, 0, o, 0, 0], ["CCZ", t, 0, o, 0, 0], ["MCR", t, 0, o, 0, 0]]
+        for n in range(0, shard["L"]):
+            for w in itertools.product(("H", "P", "X", "Z"), repeat=n):
+                word = [["1", shard["first"], t, 0]] + [["1", x, t, 0] for x in w]
+                for tail in tails:
+                    for prefix in ([], [["1", "H", o, 0]]):
+                        prog = prefix + word + [tail]
+                        for backend in ("stab", "dm"):
+                            for setting in SETTINGS:
+                                check_case({"layout": list(layout), "program": prog, "backend": backend, "setting": setting}, acc)
+        acc.sample({"layout": list(layout), "program": prog})
     elif kind == "solver":
         run_solver_shard(shard, tier, acc)
 
